@@ -230,7 +230,7 @@ LEVEL_TEXT = ("The solver itself is tied to the model by translation: _compute_t
               "reconcile_thl(ALL) returns exactly the valid minimum-cost reconciliations (each once), reconcile_thl(ANY) exactly one of them (for any enumeration order of the root species: C01_thl_any_order; exhaustive: any order of the candidates), the result is never empty; "
               "validity holds for any unit costs; generate_all yields every valid reconciliation exactly once and reconcile_exhaustive exactly the optimal ones (any costs). "
               "The models are compared with reconcile_thl (ALL set, ANY membership), every value of _compute_thl_table, reconcile_exhaustive and generate_all on all inputs up to 3/3 leaves "
-              "(quick) x a coherent cost grid and on random inputs up to 5/6 leaves; the brute-force oracle classifies disagreements.")
+              "(quick) x a coherent cost grid and on random inputs up to 5/6 leaves; the brute-force oracle classifies disagreements. The solver source (table steps, table, decoder, reconcile_thl, reconcile_lca) is also translated into Gallina on every run (Gen/ThlGen.v) and proved equal to the model: under ALL the generated reconcile_thl returns the model's set up to permutation, under ANY one member of it (C01_gen_reconcile_thl_model, C01_gen_reconcile_thl_any), under the premises listed in DESIGN section 8.")
 LEVEL_NOTE = ("Trusted: Coq kernel; hand-written models (correspondence = differential testing); ancestry on root paths (C17); Entry model (C16); evaluator model (C06). No axioms. "
               "Theorems are about the code after fixes D2-D4. Outside the coherent region the optimiser and the evaluator differ (C01_incoherent_refuted; known finding F-COHERENCE, witnesses replayed).")
 
